@@ -108,7 +108,7 @@ func runC08(c *Ctx) {
 			found, ft, fl := false, "", false
 			eachCallCtx(fn, func(call ssa.CallInstruction, lift func(*Term) *Term, inLoop bool) {
 				if !found && strings.HasSuffix(CalleeName(call.Common()), helper) {
-					found, ft, fl = true, lift(newTB().of(call.Common().Args[argIdx], 0)).String(), inLoop
+					found, ft, fl = true, lift(newTB().of(ArgK(call, argIdx), 0)).String(), inLoop
 				}
 			})
 			if found {
@@ -328,7 +328,7 @@ func runC08(c *Ctx) {
 					if !ok2 && FuncKey(fn) == "pkg/blockchain.(*DataAccess).getBlockHeader" {
 						// storage path: ID = Hash(stored bytes), and the same bytes are decoded
 						dec := CallsIn(fn, "(*blockchain.BlockHeader).Decode")
-						ok2 = t.Op == "call" && strings.HasSuffix(t.Sym, "crypto.Hash") && len(dec) == 1 && T(dec[0].Call.Common().Args[1]).String() == t.Args[0].String()
+						ok2 = t.Op == "call" && strings.HasSuffix(t.Sym, "crypto.Hash") && len(dec) == 1 && T(ArgK(dec[0].Call, 1)).String() == t.Args[0].String()
 					}
 					c.Require("C08.I1 id-is-hash-of-encoding", FuncKey(fn)+": "+o+".ID", p.InstrPos(st), "ID = Hash(x.Encode()) of the same value (or Hash of the very bytes decoded)", ok2, "value: "+t.String())
 					// … and it is recomputed on every successful path through the function: an ID
